@@ -46,13 +46,16 @@ fn is_pure_(expr: &Expression_) -> bool {
 struct Operand<'a> {
     expr: &'a Expression,
     delete_from: Option<usize>,
+    /// The end offset of the operand, including any parentheses
+    /// wrapped around just this operand.
+    delete_to: usize,
 }
 
 /// Collect operands from a boolean chain, returning them as references
 /// to the inner expressions. For `a || b || c`, this returns `[a, b, c]`.
 fn collect_operands<'a>(expr: &'a Expression, op_sym: &BinaryOperatorSymbol) -> Vec<Operand<'a>> {
     let mut result = Vec::new();
-    collect_operands_(expr, op_sym, None, &mut result);
+    collect_operands_(expr, op_sym, None, None, &mut result);
     result
 }
 
@@ -60,21 +63,27 @@ fn collect_operands_<'a>(
     expr: &'a Expression,
     op_sym: &BinaryOperatorSymbol,
     delete_from: Option<usize>,
+    paren_end: Option<usize>,
     result: &mut Vec<Operand<'a>>,
 ) {
     match &expr.expr_ {
         Expression_::BinaryOperator(lhs, op, rhs) if op == op_sym => {
-            collect_operands_(lhs, op_sym, delete_from, result);
+            collect_operands_(lhs, op_sym, delete_from, None, result);
             // The right operand's left sibling is the whole left
             // subtree, so deletions start at its end (after any closing
             // parenthesis), not at the previous flattened operand.
-            collect_operands_(rhs, op_sym, Some(lhs.position.end_offset), result);
+            collect_operands_(rhs, op_sym, Some(lhs.position.end_offset), None, result);
         }
         Expression_::Parentheses(paren) => {
-            collect_operands_(&paren.expr, op_sym, delete_from, result);
+            let paren_end = paren_end.unwrap_or(expr.position.end_offset);
+            collect_operands_(&paren.expr, op_sym, delete_from, Some(paren_end), result);
         }
         _ => {
-            result.push(Operand { expr, delete_from });
+            result.push(Operand {
+                expr,
+                delete_from,
+                delete_to: paren_end.unwrap_or(expr.position.end_offset),
+            });
         }
     }
 }
@@ -111,6 +120,7 @@ impl Visitor for RepeatedBoolVisitor {
                             let fixes = if let Some(delete_from) = operand.delete_from {
                                 let mut fix_pos = expr.position.clone();
                                 fix_pos.start_offset = delete_from;
+                                fix_pos.end_offset = operand.delete_to;
                                 vec![Autofix {
                                     description: "Remove this duplicate".to_owned(),
                                     position: fix_pos,
